@@ -304,6 +304,21 @@ class PArr(object):
         order = args[0] if args else kwargs.get('order', 'C')
         if self.order_tag is not None:
             return self
+        if order in ('K', 'A'):
+            # K3: 'K' flattens in memory order, 'A' in Fortran order iff the array is Fortran- (and not C-) contiguous: for a contiguous array both are
+            # views in ITS OWN order - which is a property of each operand, not a common choice
+            cc, fc = self.ccont(), self.fcont()
+            is_c = fr.st.decide(cc) if not isinstance(cc, bool) else cc
+            if is_c:
+                order = 'C'
+            else:
+                is_f = fr.st.decide(fc) if not isinstance(fc, bool) else fc
+                if is_f:
+                    order = 'F'
+                elif order == 'A':
+                    order = 'C'
+                else:
+                    raise Unsupported("ravel(order='K') of a non-contiguous array")
         if order not in ('C', 'F'):
             raise Unsupported('ravel order %r' % (order,))
         contig = self.ccont() if order == 'C' else self.fcont()
